@@ -51,9 +51,11 @@ type Contract struct {
 	Inline        bool
 	Propagates    []string // property tags: an error returned by a callee makes this function return an error
 	HasPropagates bool
-	Trusted       bool       // contract is assumed, body not verified (listed in evidence)
-	Instantiate   []ast.Expr // extra integer terms at which the ghost postconditions of callees are instantiated (evaluated at each call)
-	Unreachable   int        // number of return statements that cannot be reached under the precondition (vacuity allowance)
+	Trusted       bool         // contract is assumed, body not verified (listed in evidence)
+	Instantiate   []ast.Expr   // extra integer terms at which the ghost postconditions of callees are instantiated (evaluated at each call)
+	Aborts        bool         // the function may end the process (call a function that never returns); without it such a call must be unreachable
+	Exhaustive    map[int]bool // loop ordinals that may only be left through their header or a return
+	Unreachable   int          // number of return statements that cannot be reached under the precondition (vacuity allowance)
 	Requires      []*Clause
 	Ensures       []*Clause
 	Invariants    []*Clause
@@ -76,12 +78,13 @@ type SpecFunc struct {
 }
 
 type ContractSet struct {
-	NonNilMaps []ast.Expr // map types whose stored values are never nil (checked at every update, assumed at every lookup)
-	SpecFuncs  map[string]*SpecFunc
-	Funcs      map[string]*Contract
-	Order      []string
-	Defines    map[string]*Define
-	Lemmas     []*Lemma
+	FieldWriters map[string][]string // "Type.Field" -> the functions allowed to assign that field (everybody else only reads it)
+	NonNilMaps   []ast.Expr          // map types whose stored values are never nil (checked at every update, assumed at every lookup)
+	SpecFuncs    map[string]*SpecFunc
+	Funcs        map[string]*Contract
+	Order        []string
+	Defines      map[string]*Define
+	Lemmas       []*Lemma
 }
 
 // Lemma is a closed implication over spec functions, discharged by the solver.
@@ -95,7 +98,7 @@ type Lemma struct {
 	Line    int
 }
 
-var kwRe = regexp.MustCompile(`^(func|extern|lemma|emits|specfunc|mapinv|requires|ensures|invariant|modifies|ghost|define|pure|functional|deterministic|propagates|inline|trusted|unreachable|instantiate|assume|prove)\b`)
+var kwRe = regexp.MustCompile(`^(func|extern|lemma|emits|specfunc|mapinv|requires|ensures|invariant|modifies|ghost|define|pure|functional|deterministic|propagates|inline|trusted|unreachable|instantiate|aborts|exhaustive|fieldwriters|assume|prove)\b`)
 var propRe = regexp.MustCompile(`^\[([A-Z0-9, ]+)\]\s*`)
 var invRe = regexp.MustCompile(`^invariant\[(\d+)\]\s*`)
 
@@ -267,6 +270,36 @@ func (cs *ContractSet) ParseFile(path string) error {
 				return fmt.Errorf("%s: instantiate: %v", loc, err)
 			}
 			cur.Instantiate = append(cur.Instantiate, e)
+		case "fieldwriters":
+			// fieldwriters Type.Field: F1 F2 ...   (file level)
+			parts := strings.SplitN(r.text, ":", 2)
+			if len(parts) != 2 {
+				return fmt.Errorf("%s: fieldwriters needs 'Type.Field: functions'", loc)
+			}
+			if cs.FieldWriters == nil {
+				cs.FieldWriters = map[string][]string{}
+			}
+			cs.FieldWriters[strings.TrimSpace(parts[0])] = strings.Fields(parts[1])
+			continue
+		case "aborts":
+			if cur == nil {
+				return fmt.Errorf("%s: aborts outside contract", loc)
+			}
+			cur.Aborts = true
+		case "exhaustive":
+			if cur == nil {
+				return fmt.Errorf("%s: exhaustive outside contract", loc)
+			}
+			if cur.Exhaustive == nil {
+				cur.Exhaustive = map[int]bool{}
+			}
+			for _, f := range strings.Fields(r.text) {
+				n, err := strconv.Atoi(f)
+				if err != nil {
+					return fmt.Errorf("%s: exhaustive needs loop ordinals", loc)
+				}
+				cur.Exhaustive[n] = true
+			}
 		case "unreachable":
 			if cur == nil {
 				return fmt.Errorf("%s: unreachable outside contract", loc)
